@@ -36,6 +36,8 @@ def target(kind):
     if kind == "edge":      # posterior mass piled up at the face x0 = +4 (u0 = 1) and straddling the seam of a periodic coordinate
         return 2, (lambda u: 8.0 * u - 4.0), (lambda x: -0.5 * (min(abs(float(x[0]) - 4.0), abs(float(x[0]) + 4.0)) ** 2) / 0.25
                                               - 0.5 * float(x[1]) ** 2 / 0.5)
+    if kind == "narrow":    # posterior ~1e4 times narrower than the prior (unit-cube sd ~1e-4): unit-scale Student-t (nu = 10) kernel
+        return 2, (lambda u: (u - 0.5) * 1.0e4), (lambda x: -6.0 * float(np.log1p(np.sum(x ** 2) / 10.0)))
     if kind == "weak":      # weakly informative: beta goes 0 -> 1 in one step
         return 1, (lambda u: 5.0 * u - 2.5), (lambda x: -0.5 * float(np.sum(x ** 2)))
     if kind == "wide":      # unit Gaussian under U(-10,10)^2: a tight volume-variation target holds beta
@@ -44,15 +46,15 @@ def target(kind):
 
 
 # cells of the "same temperature" oracle (first in `search`): the two families in which the reweighter takes its rarely used exits
-TEMP_CELLS = [dict(kernel="rwm", resample="mult", clustering=False, target="edge", volume_variation=None, periodic=None, reflective=[0]),
-              dict(kernel="rwm", resample="syst", clustering=False, target="edge", volume_variation=None, periodic=[0], reflective=None),
-              dict(kernel="tpcn", resample="mult", clustering=False, target="edge", volume_variation=None, periodic=[0], reflective=[1]),
-              dict(kernel="tpcn", resample="syst", clustering=True, target="edge", volume_variation=None, periodic=None, reflective=[0, 1])]
-
-CELLS = [dict(kernel="rwm", resample="mult", clustering=False, target="weak", volume_variation=None, periodic=None, n=32, ess_ratio=2.0),
+TEMP_CELLS = [dict(kernel="rwm", resample="mult", clustering=False, target="weak", volume_variation=None, periodic=None, n=32, ess_ratio=2.0),
               dict(kernel="tpcn", resample="syst", clustering=False, target="wide", volume_variation=0.05, periodic=None, n=32, ess_ratio=2.0),
               dict(kernel="tpcn", resample="mult", clustering=True, target="plain", volume_variation=None, periodic=None, n=24, ess_ratio=1.2),
-              dict(kernel="rwm", resample="syst", clustering=False, target="wide", volume_variation=0.04, periodic=None, n=32, ess_ratio=1.7)]
+              dict(kernel="rwm", resample="syst", clustering=False, target="wide", volume_variation=0.04, periodic=None, n=32, ess_ratio=1.7),
+              dict(kernel="tpcn", resample="mult", clustering=False, target="wide", volume_variation=0.03, periodic=None, n=64, ess_ratio=2.0)]
+# (thorough tier only: long) the second configuration of the seeded-change demo
+TEMP_CELLS_THOROUGH = [dict(kernel="tpcn", resample="mult", clustering=False, target="wide", volume_variation=0.015, periodic=None, n=256,
+                            ess_ratio=2.0)]
+assert sum(1 for c_ in TEMP_CELLS if c_["volume_variation"] is not None) >= 3 and any(c_["target"] == "weak" for c_ in TEMP_CELLS)
 
 # cells of the record oracle: folded coordinates WITH posterior mass at the declared face, so that accepted moves cross it
 FOLD_CELLS = [dict(kernel="rwm", resample="mult", clustering=False, target="edge", volume_variation=None, periodic=None, reflective=[0]),
@@ -116,6 +118,68 @@ def check_records(cell, seed):
     return out, near
 
 
+MODE_CELLS = [dict(kernel="tpcn", clustering=False, target="narrow", n=32), dict(kernel="tpcn", clustering=True, target="bimodal", n=48),
+              dict(kernel="rwm", clustering=False, target="narrow", n=32), dict(kernel="tpcn", clustering=False, target="plain", n=24)]
+
+
+def check_modes(cell, seed):
+    """every `ModeStatistics` a complete real run builds is internally consistent (C03's ModeOK contract, which the kernel theorems
+    assume): the factor the proposals are drawn with and the inverse the Hastings factor / scale draw use belong to the SAME
+    covariance — L L^T == Sigma, Sigma^-1 Sigma == I and L^T Sigma^-1 L == I, relative 1e-6 (numerically singular modes,
+    cond > 1e8, are skipped: F24 family).  Includes a target whose posterior is 1e4 times narrower than the prior (covariances of
+    order 1e-8 in unit-cube coordinates), where an absolute regularisation of one of the two shows."""
+    from tempest import Sampler
+    import tempest.modes as modes
+    d, prior, like = target(cell["target"])
+    seen, out = [], []
+    orig = modes.ModeStatistics.__init__
+
+    def init(self_, *a, **kw):
+        orig(self_, *a, **kw)
+        seen.append(self_)
+    with common.patched(modes.ModeStatistics, "__init__", init), _quiet(), warnings.catch_warnings():
+        warnings.simplefilter("ignore")
+        s = Sampler(prior, like, d, n_particles=cell["n"], clustering=cell["clustering"], sample=cell["kernel"], n_steps=1,
+                    n_max_steps=2, random_state=seed)
+        s.run(n_total=2 * cell["n"], progress=False)
+    checked, smallest = 0, np.inf
+    for ms in seen:
+        for k in range(ms.K):
+            S, L, P = np.asarray(ms.covariances[k]), np.asarray(ms.chol_covariances[k]), np.asarray(ms.inv_covariances[k])
+            if not np.all(np.isfinite(S)) or np.linalg.cond(S) > 1e8:
+                continue
+            checked += 1
+            smallest = min(smallest, float(np.max(np.abs(S))))
+            e1 = float(np.max(np.abs(L @ L.T - S)) / np.max(np.abs(S)))
+            e2 = float(np.max(np.abs(P @ S - np.eye(len(S)))))
+            e3 = float(np.max(np.abs(L.T @ P @ L - np.eye(len(S)))))
+            if max(e1, e2, e3) > 1e-6:
+                out.append(f"ModeStatistics #{len(seen)} mode {k}: covariance {S.tolist()}: |L L^T - Sigma|/|Sigma| = {e1:.3g}, "
+                           f"|Sigma^-1 Sigma - I| = {e2:.3g}, |L^T Sigma^-1 L - I| = {e3:.3g} (the tpCN proposal is drawn with L, its "
+                           f"acceptance ratio and scale draw use Sigma^-1: they must describe one covariance)")
+                if len(out) >= 2:
+                    return out, checked, smallest
+    return out, checked, smallest
+
+
+def suite_modes(tier):
+    c = common.Corr("mode-statistics-consistency-real-runs", "exact oracle on the real code (relative 1e-6; cond > 1e8 skipped)")
+    for r in range(1 if tier == "quick" else 5):
+        for k, cell in enumerate(MODE_CELLS):
+            seed = (common.seed() * 4099 + 1000 * r + 41 * k + 2) % (2 ** 31 - 1)
+            try:
+                probs, checked, smallest = check_modes(cell, seed)
+            except np.linalg.LinAlgError:
+                c.count("aborted_singular_mode(F24)")
+                continue
+            c.case((k, seed), checked > 0)
+            c.count("modes_checked", checked)
+            c.count("runs_with_covariance_below_1e-7", int(smallest < 1e-7))
+            if probs:
+                c.disagree(input={"cell": cell, "seed": seed}, impl=probs[0], model="L L^T = Sigma, Sigma^-1 Sigma = I (C03 ModeOK)")
+    return c
+
+
 def check_same_temperature(cell, seed, n_total_factor=4):
     """C01 / C05 / C02 'one temperature per iteration' on the REAL code, model-free: at the moment `Trainer.run` and
     `Resampler.run` are called, the state's (beta, logz, ess) and the weight vector they receive must ALL be the pool's quantities
@@ -169,7 +233,7 @@ def check_same_temperature(cell, seed, n_total_factor=4):
         core.trainer.run = lambda w: (observe("Trainer.run", np.array(w, dtype=float)), o_tr(w))[1]
         core.resampler.run = lambda w: (observe("Resampler.run", np.array(w, dtype=float)), o_rs(w))[1]
         try:
-            s.run(n_total=n_total_factor * n, progress=False)
+            s.run(n_total=min(n_total_factor * n, 512), progress=False)
         finally:
             del core.trainer.run, core.resampler.run
     return out[:5], seen
@@ -181,7 +245,7 @@ def suite_same_temperature(tier, prop):
     c = common.Corr("same-temperature-real-runs", "exact oracle on the real code (1e-9 on recomputed exp/log quantities)")
     reps = 1 if tier == "quick" else 6
     for r in range(reps):
-        for k, cell in enumerate(TEMP_CELLS):
+        for k, cell in enumerate(TEMP_CELLS + (TEMP_CELLS_THOROUGH if tier == "thorough" and r == 0 else [])):
             seed = (common.seed() * 7907 + 1000 * r + 31 * k + (11 if prop == "C01" else 12)) % (2 ** 31 - 1)
             try:
                 probs, seen = check_same_temperature(cell, seed)
@@ -196,6 +260,9 @@ def suite_same_temperature(tier, prop):
             c.count("target_" + cell["target"])
             if probs:
                 c.disagree(input={"cell": cell, "seed": seed}, impl=probs[0], model="pool quantities at the recorded beta (C01_X_same_temperature)")
+    # the suite is only worth its name if the dynamic mode actually HELD beta somewhere (guards against an emptied cell list)
+    if c.stats.get("iterations_dynamic_mode_holding_beta", 0) == 0 or c.stats.get("mode_vv", 0) == 0:
+        c.error = "no iteration in which the dynamic mode holds beta was generated: TEMP_CELLS no longer reach the hold branch"
     return c
 
 
@@ -360,6 +427,21 @@ def check_streams(cell, seed):
 def search(which, tier):
     """failing inputs of the contract on the real code (empty on a correct tree)"""
     found = []
+    # 000. (posterior) the proposal factor and the inverse used in the acceptance ratio describe one covariance
+    if which == "posterior":
+        for k, cell in enumerate(MODE_CELLS):
+            seed = (common.seed() * 32452843 + 43 * k + 7) % (2 ** 31 - 1)
+            try:
+                probs, _c, _s = check_modes(cell, seed)
+            except np.linalg.LinAlgError:
+                continue
+            except Exception as e:  # noqa
+                probs = [f"raised {type(e).__name__}: {e}"]
+            if probs:
+                found.append({"kind": "mode-statistics-inconsistent", "cell": cell, "seed": seed, "what": probs[0], "all": probs[:2],
+                              "replay": {"contract": "modes", "cell": cell, "seed": seed}})
+        if found:
+            return found
     # 00. (posterior) folded coordinates with mass at the face: every stored / returned particle is a coherent record in the support
     if which == "posterior":
         for k, cell in enumerate(FOLD_CELLS):
@@ -410,6 +492,9 @@ def search(which, tier):
 
 
 def replay(which, cell, seed):
+    if which == "modes":
+        probs, _c, _s = check_modes(cell, seed)
+        return {"fails": bool(probs), "detail": probs[:2]}
     if which == "records":
         probs, _ = check_records(cell, seed)
         return {"fails": bool(probs), "detail": probs[:3]}
